@@ -9,6 +9,7 @@ import (
 	"github.com/idena-network/idena-go/blockchain/types"
 	"github.com/idena-network/idena-go/blockchain/validation"
 	"github.com/idena-network/idena-go/common"
+	"github.com/idena-network/idena-go/crypto"
 	"pgregory.net/rapid"
 
 	"verifharness/internal/evid"
@@ -70,6 +71,13 @@ func TestOnlySignerPays(t *testing.T) {
 			for k := rapid.IntRange(0, 2).Draw(t, "experiments"); k > 0; k-- {
 				tx, info := w.GenTx(t, p, nil)
 				evid.Eval()
+				// sometimes the transaction under test is followed by further transactions in the same block
+				// (one VM and one check state are shared by the whole block)
+				var followers []*types.Transaction
+				for n := rapid.IntRange(0, 3).Draw(t, "followers"); n > 0 && rapid.IntRange(0, 2).Draw(t, "multi") == 0; n-- {
+					f, _ := w.GenTx(t, p, nil)
+					followers = append(followers, f)
+				}
 				mk := func(name string) *sim.Replica {
 					r := &sim.Replica{W: w, Name: name, Key: p.Key, Addr: p.Addr, DB: sim.CopyDB(p.DB), Ipfs: p.Ipfs, Loc: time.UTC}
 					if err := r.Start(); err != nil {
@@ -82,10 +90,22 @@ func TestOnlySignerPays(t *testing.T) {
 					evid.Count("tx.refused_by_pool")
 					continue
 				}
+				for _, f := range followers {
+					with.Pool.AddExternalTxs(validation.MempoolTx, f)
+				}
 				b1 := with.Propose().Block
-				if len(b1.Body.Transactions) != 1 {
+				included := false
+				for _, x := range b1.Body.Transactions {
+					if x.Hash() == tx.Hash() {
+						included = true
+					}
+				}
+				if !included {
 					evid.Count("tx.left_out_by_builder")
 					continue
+				}
+				if len(b1.Body.Transactions) > 1 {
+					evid.Count("block.multi_tx")
 				}
 				b2 := without.Propose().Block
 				if b2.Header.Flags().HasFlag(types.ValidationFinished) {
@@ -103,25 +123,29 @@ func TestOnlySignerPays(t *testing.T) {
 				}
 				hw, ho := holdingsOf(sim.Image(with.ReadState())), holdingsOf(sim.Image(without.ReadState()))
 				// addresses allowed to lose value
-				allowed := map[common.Address]string{signer: "signer"}
-				if tx.To != nil {
-					switch tx.Type {
-					case types.KillInviteeTx:
-						if inv := pre.State.GetInviter(*tx.To); inv != nil && inv.Address == signer {
-							allowed[*tx.To] = "own invitee"
-						}
-					case types.KillDelegatorTx:
-						if d := pre.State.Delegatee(*tx.To); d != nil && *d == signer {
-							allowed[*tx.To] = "own delegator"
+				allowed := map[common.Address]string{}
+				for _, x := range b1.Body.Transactions {
+					xs, _ := types.Sender(x)
+					allowed[xs] = "signer"
+					if x.To != nil {
+						switch x.Type {
+						case types.KillInviteeTx:
+							if inv := pre.State.GetIdentity(*x.To).Inviter; inv != nil && inv.Address == xs {
+								allowed[*x.To] = "own invitee"
+							}
+						case types.KillDelegatorTx:
+							idTo := pre.State.GetIdentity(*x.To)
+							if d := idTo.Delegatee(); d != nil && *d == xs {
+								allowed[*x.To] = "own delegator"
+							}
 						}
 					}
-				}
-				rec := with.Chain.GetReceipt(tx.Hash())
-				if rec != nil {
-					allowed[rec.ContractAddress] = "executing contract"
-					for _, e := range rec.Events {
-						if !e.Contract.IsEmpty() {
-							allowed[e.Contract] = "executing contract"
+					if rec := with.Chain.GetReceipt(x.Hash()); rec != nil {
+						allowed[rec.ContractAddress] = "executing contract"
+						for _, e := range rec.Events {
+							if !e.Contract.IsEmpty() {
+								allowed[e.Contract] = "executing contract"
+							}
 						}
 					}
 				}
@@ -158,5 +182,45 @@ func TestOnlySignerPays(t *testing.T) {
 			}
 		}
 		sim.RunHistory(t, opt)
+	})
+}
+
+// The signer of a transaction is who signed it last: re-signing an object whose
+// sender was already recovered (and cached on the object) with another key must
+// yield a transaction of the new signer, in memory and after the wire.
+func TestSignerIsWhoSignedLast(t *testing.T) {
+	rapid.Check(t, func(t *rapid.T) {
+		evid.Eval()
+		ka, kb := sim.DeriveKey(rapid.Uint64().Draw(t, "ka"), 1), sim.DeriveKey(rapid.Uint64().Draw(t, "kb"), 2)
+		var to common.Address
+		to[3] = byte(rapid.IntRange(1, 255).Draw(t, "to"))
+		tx := &types.Transaction{Type: types.TxType(rapid.IntRange(0, 0x16).Draw(t, "type")), AccountNonce: uint32(rapid.IntRange(1, 1000).Draw(t, "nonce")), Epoch: uint16(rapid.IntRange(0, 200).Draw(t, "epoch")),
+			To: &to, Amount: big.NewInt(int64(rapid.IntRange(0, 1<<40).Draw(t, "amount"))), MaxFee: big.NewInt(int64(rapid.IntRange(0, 1<<40).Draw(t, "maxFee"))), Payload: rapid.SliceOfN(rapid.Byte(), 0, 40).Draw(t, "payload")}
+		s1, err := types.SignTx(tx, ka)
+		if err != nil {
+			t.Fatal(err)
+		}
+		a, b := crypto.PubkeyToAddress(ka.PublicKey), crypto.PubkeyToAddress(kb.PublicKey)
+		recovered := rapid.Bool().Draw(t, "senderRecoveredBeforeResign")
+		if recovered {
+			if got, _ := types.Sender(s1); got != a {
+				t.Fatalf("sender of a tx signed by %x is %x", a, got)
+			}
+			evid.Count("resign.after_sender_was_cached")
+		}
+		s2, err := types.SignTx(s1, kb)
+		if err != nil {
+			t.Fatal(err)
+		}
+		if got, _ := types.Sender(s2); got != b {
+			t.Fatalf("tx re-signed by %x is attributed to %x (previous signer %x, sender recovered before re-signing: %v)", b, got, a, recovered)
+		}
+		if got, _ := types.Sender(sim.WireCopyTx(s2)); got != b {
+			t.Fatalf("after the wire the re-signed tx is attributed to %x, signed by %x", got, b)
+		}
+		if got, _ := types.Sender(s1); got != a {
+			t.Fatalf("re-signing changed the signer of the original object")
+		}
+		evid.NonTrivial(fmt.Sprintf("resign|%d|%v", tx.Type, recovered))
 	})
 }
